@@ -780,7 +780,12 @@ func (r *Run) SpawnTolerant(n int, arg string, onCrash func(desc string, stderrT
 				mu.Unlock()
 				skip = k + 1
 			}
-			r.Fault("worker %d (%s) crashed 40 times", i, arg)
+			// every crash has been reported as a violation through onCrash: give this shard up
+			// rather than restarting for ever (the run is marked non-exhaustive)
+			mu.Lock()
+			r.inexhaust = true
+			r.capsHit = append(r.capsHit, fmt.Sprintf("worker %d (%s) crashed 40 times: the rest of its shard was not explored", i, arg))
+			mu.Unlock()
 		}(i)
 	}
 	wg.Wait()
